@@ -35,6 +35,16 @@ def gen_case(g):
          "U": (rng.normal(size=(T, m)) * scale).tolist(),
          "x0": (rng.uniform(-1, 1, size=n)).tolist(), "y0": (rng.uniform(-1, 1, size=n)).tolist(),
          "mode": g.choice(["from_state", "reset_to", "calls"])}
+    if act == "tanh" and g.chance(0.25):
+        # a single-precision tanh reservoir driven beyond the float32 range: the state must stay a number inside the box
+        c["dtype"] = "float32"
+        Win = np.array(c["Win"]).reshape(n, m)
+        Win[rng.random((n, m)) < 0.4] = 0.0
+        c["Win"] = Win.tolist()
+        U = np.array(c["U"]).reshape(T, m)
+        U[rng.integers(0, T), rng.integers(0, m)] = g.choice([1e39, -1e39, 1e120, 3e300])
+        c["U"] = U.tolist()
+        c["mode"] = "reset_to" if c["mode"] == "calls" else c["mode"]
     if g.chance(0.3):
         c["lr_first"] = g.choice([v for v in (1.0, 0.5, 0.25, 0.9, 0.1) if v != c["lr"]])
         c["lr_via"] = g.choice(["set_param", "hypers", "attr"])
@@ -49,8 +59,9 @@ def build(c):
     from scipy import sparse
     n, m = c["n"], c["m"]
     W = np.array(c["W"]).reshape(n, n)
+    kw = {"dtype": np.float32} if c.get("dtype") == "float32" else {}
     return Reservoir(W=sparse.csr_matrix(W) if c["fmt"] == "csr" else W, Win=np.array(c["Win"]).reshape(n, m),
-                     bias=np.array(c["bias"]).reshape(n, 1), lr=c["lr"], activation=c["act"])
+                     bias=np.array(c["bias"]).reshape(n, 1), lr=c["lr"], activation=c["act"], **kw)
 
 
 class CallerArrayChanged(Exception):
@@ -120,6 +131,14 @@ def check_cases(ctx, cases):
                           "states the caller holds no longer contract" if "CallerArrayChanged" in str(r[1]) else ""), c, obligation=ob)
             continue
         X, Y = r[1]
+        if c.get("dtype") == "float32":
+            ctx.stat("float32 reservoirs beyond the float32 range")
+            for Z in (X, Y):
+                if not np.all(np.isfinite(Z)) or (max(abs(v) for v in c["x0"]) <= 1 and float(np.max(np.abs(Z))) > 1 + 1e-6):
+                    ctx.violation("a single-precision tanh reservoir driven by a finite input beyond the float32 range left the box [-1,1]^n "
+                                  f"(non-finite states: {int(np.sum(~np.isfinite(Z)))}, max |state| = {float(np.nanmax(np.abs(Z)))!r})", c, obligation=ob)
+                    break
+            continue
         W = np.array(c["W"]).reshape(c["n"], c["n"])
         sigma = float(np.linalg.svd(W, compute_uv=False)[0])
         q = (1 - c["lr"]) + c["lr"] * sigma
